@@ -3,7 +3,7 @@ import PoxModel.Proofs.PacketExt
 # LLDP: TLV lists survive `lldp.hdr` → `lldp.parse` (C14 phase 2; core only)
 -/
 namespace Pox.Packet
-open Pox Pox.Layout Pox.Checksum
+open Pox Pox.PktLayout Pox.Checksum
 
 /-- TLVs the classes of lldp.py serialise and read back as themselves -/
 def Tlv.OK : Tlv → Prop
